@@ -252,6 +252,13 @@ func c12Eval(c *Ctx, kind string, raw []byte) {
 			spec = s
 		}
 		run := c12Exec(p.Data, []pipeline.Action{spec}, true)
+		if strings.HasPrefix(run.text, "runaway") {
+			if c.searchMode {
+				continue // a neighbour produced by the shrinker (e.g. a loop without its counter): outside the domain
+			}
+			c.Direct("terminates("+variant+")", false, run.text)
+			continue
+		}
 		if !c.Direct("no-panic("+variant+")", run.outcome == "ok", run.text) {
 			continue
 		}
